@@ -36,6 +36,12 @@ CHECKS = {
  "C17": ("exploration", "reference-model runtime monitor over the same run's rows + binary CSV files",
          "The per-day maxima, carry-forward, totals, yearly rows and ignored-transaction notes of the --total-costs tables are recomputed from the New ACB of the rows reported in the same run and compared exactly; a sample is run through the real binary and its total-costs.csv / yearly-max-costs.csv compared with the render model.",
          "Only runs without a rejected security are judged, as the statement says.", "C17"),
+ "C05": ("exploration", "panic/exit/diagnostic runtime monitor with watchdog (catch_unwind + panic hook in-process; exit status, signal, stderr for the real binaries)",
+         "Every front end is driven with hostile workloads (a slice of every other check's generator under random options, in-range extreme and tiny numerics, 25 kinds of byte-level CSV mutation plus truncation at every offset of a small file, malformed options and opening positions, hostile remote bodies, generated spreadsheets and confirmation texts); a panic hook records message and location, crashes and hangs are isolated by re-running the case alone, and every failing run must carry a diagnostic naming a file, row or security. Termination is judged by a watchdog plus isolated re-run, i.e. bounded progress, not an unbounded claim.",
+         "PDF byte parsing by third-party crates and network errors are outside the statement; known findings are keyed on panic site + message + input class (known_findings.json).", "C05"),
+ "C09": ("exploration", "repeated-run byte comparison over separate processes + hash-schedule canary",
+         "Each command (tables, CSV directory, total costs, summary, annual summary, with and without full values) is run N times in separate processes on inputs that weight the hash-ordered paths, and M times in-process; stdout bytes and the output directory tree must be identical. A canary shows how many distinct hash schedules were actually seen. Detection is probabilistic in the number of schedules sampled.",
+         "The schedule space cannot be enumerated without replacing the hasher; stderr is not part of the statement.", "C09"),
 }
 PENDING = {}
 
